@@ -24,7 +24,111 @@ CHECKS = {
                      "container kind, previous op) x (op, field-id delta class/size class); every transition was executed on "
                      "the real code"],
     ),
+    "C03": dict(
+        engine="vrt", level="exploration", quick_cap=240, thorough_cap=3600,
+        rule=("Both directions against reference codecs written from the Apache binary/compact specs (self-checked against "
+              "spec vectors): pilota->reference over the C01 value spaces (a)(b)(c) on {binary, compact, unchecked(binary wire)}; "
+              "reference->pilota with every legal alternative encoding explored by a deviation-bounded explorer (long-form compact "
+              "field header at any field, any non-zero byte for binary true from {1,2,0x7f,0x80,0xfe,0xff}, bool element type "
+              "code 1 or 2 in compact containers; bound 1 quick / 2 thorough); message envelopes (5 name lengths x 4 types x all "
+              "i32 boundary seqids) both directions; TApplicationException kinds -1..12 and extremes, with unknown fields and "
+              "reordered fields; every out-of-spec type byte (all 256 binary codes / nibbles 14,15 and stop-as-element in compact) "
+              "in every field/element/key/value type position of every shape of depth<=1(+wrappers) [<=2 thorough] must make typed "
+              "read and skip fail. distinct_nontrivial as in C01."),
+        assumptions=["the reference codecs are the oracle; they are validated at engine start against byte vectors that do not "
+                     "come from pilota (Apache compact test vectors, protobuf varint/zigzag tables) and by encode/decode identity",
+                     "not treated as legal alternatives: pre-strict binary header, 0 as false for compact elements, non-minimal "
+                     "varints, out-of-spec element type in an EMPTY container (unobservable)"],
+    ),
+    "C04": dict(
+        engine="vrt", level="model_checking", quick_cap=240, thorough_cap=3600,
+        rule=("Runtime level: the C01 value spaces (a)(b)(c) (shapes to depth 2 [3 thorough], scalar sweeps in 5 contexts, all "
+              "field-id neighbour pairs and nested id patterns) x {binary, binary-LE, compact, unchecked} x 3 buffer kinds x "
+              "bin/string APIs x {primitive calls, *_field helper calls}; the writer and a separate TLengthProtocol instance are "
+              "driven in lockstep and the running sums compared after EVERY op; plus message envelopes (6 name lengths x 4 types x "
+              "all i32 boundary seqids). Generated level: see C02 corpus (size() vs encoded length) when built. distinct_nontrivial "
+              "as in C01."),
+        assumptions=["dev profile with overflow checks", "states/transitions as in C01 are not re-reported here: the evidence "
+                     "counts lockstep ops compared (counters.ops)"],
+        coverage_extra={},
+    ),
+    "C07": dict(
+        engine="vrt", level="exploration", quick_cap=240, thorough_cap=3600,
+        rule=("Every value of the C01 spaces (a) shapes to depth 2 [3 thorough] and (b) scalar sweeps incl. uuid, empty and "
+              "15/16-element containers, maps with fixed and variable entries, encoded by the reference encoder and followed by "
+              "{nothing, one stray byte, a complete second struct with delta-encoded ids that is then decoded by the SAME reader}; "
+              "readers {binary, binary-LE, compact, unchecked(iterative)} sync (top-level skip and skip of a field inside a struct "
+              "followed by a sibling field) and {async binary, async binary-LE, async compact} (deliver-all; thorough adds one "
+              "byte per poll); nesting depth d of structs, lists and maps for d in {1,2,3,32,63,64,65,66,80} [every d in 1..80 "
+              "thorough]: d<=64 must skip exactly, d>64 must return DepthLimit (iterative unchecked skipper: exact skip or "
+              "DepthLimit). Every case is non-trivial (the oracle compares the returned count and the consumed bytes with the "
+              "reference length)."),
+        assumptions=["reference encoder defines the value's length", "depth counts values entered, leaf included"],
+    ),
 }
+
+
+ALL_PROPS = ["C%02d" % i for i in range(1, 21)]
+
+NOT_APPLICABLE = {}
+
+TECHNIQUE = {
+    "model_checking": "bounded exhaustive enumeration of operation sequences / schedules on the real code (stateless explicit-state exploration, deviation-bounded)",
+    "exploration": "bounded exhaustive enumeration of inputs/programs on the real code against a reference model",
+    "fault_enumeration": "exhaustive enumeration of fault positions and fault values over seed encodings on the real code",
+}
+
+
+def write_manifest():
+    import collections
+    engines = collections.OrderedDict()
+    checks = []
+    for pid in ALL_PROPS:
+        if pid not in CHECKS:
+            continue
+        c = CHECKS[pid]
+        engines.setdefault(c["engine"], []).append(pid)
+        checks.append({
+            "property_id": pid,
+            "quick_cmd": "./verif check %s --tier quick" % pid,
+            "thorough_cmd": "./verif check %s --tier thorough" % pid,
+            "evidence_file": "evidence/%s.json" % pid,
+            "replay_cmd_template": "./verif replay {path}",
+            "engine": c["engine"],
+            "level_claimed": {"category": c["level"], "text": c.get("claim", c["rule"])[:1500], "design_ref": "DESIGN.md §3 " + pid},
+            "level_note": "; ".join(c["assumptions"])[:1500],
+            "technique": c.get("technique", TECHNIQUE[c["level"]]),
+        })
+    na = []
+    for pid in ALL_PROPS:
+        if pid not in CHECKS:
+            na.append({"property_id": pid, "reason": NOT_APPLICABLE.get(pid, "check under construction (not yet registered)")})
+    kinds = {
+        "vcore": "shared library: dynamic Thrift values, bounded enumerators, reference codecs written from the specs, deviation-bounded explorer, counting allocator, shard/evidence plumbing",
+        "vrt": "runtime-level engine: value interpreter that drives pilota's real protocol objects exhaustively over the enumerated spaces (sync and scripted-async readers)",
+    }
+    m = {
+        "version": 1,
+        "setup_cmd": "./verif setup",
+        "hooks": {
+            "guard": "pilota_verif",
+            "enable": "RUSTFLAGS=--cfg pilota_verif (only C17 needs a hook; all other checks drive public APIs)",
+            "baseline_off_cmd": "cd /repo && cargo test --workspace --no-fail-fast --offline",
+            "source_commits": HOOK_COMMITS,
+            "add_only": True,
+        },
+        "engines": [{"name": "vcore", "path": "engines/vcore", "serves_properties": sorted(CHECKS), "kind_free_text": kinds["vcore"]}] +
+                   [{"name": e, "path": "engines/" + e, "serves_properties": ps, "kind_free_text": kinds.get(e, "")} for e, ps in engines.items()],
+        "checks": checks,
+        "not_applicable": na,
+        "notes": "Quick tier of every check runs in well under a minute after ./verif setup; exit 2 = machinery error (never a verdict). known_findings.json lists recorded defects; fixed entries suppress nothing.",
+    }
+    json.dump(m, open(os.path.join(ROOT, "MANIFEST.json"), "w"), indent=1)
+    print("MANIFEST.json written: %d checks, %d not applicable" % (len(checks), len(na)))
+    return 0
+
+
+HOOK_COMMITS = []
 
 
 def setup():
@@ -67,6 +171,9 @@ def verdict(pid, tier, seed, c, m, wall, build_s):
     violations = []
     known_hits = []
     rdir = os.path.join(ROOT, "replays", pid)
+    if os.path.isdir(rdir):
+        for f in os.listdir(rdir):
+            os.remove(os.path.join(rdir, f))
     for sig in sorted(m["failures"]):
         f = m["failures"][sig]
         k = sig_listed(known, sig)
